@@ -1037,6 +1037,7 @@ func (s *Sched) waitTask(t *task) bool {
 		// Either its notification is waiting in the channel, or it is
 		// blocked elsewhere (or was preempted, or sits in a system call:
 		// then the loop simply yields again).
+		strikes := 0
 		for {
 			select {
 			case <-g.sched:
@@ -1057,7 +1058,16 @@ func (s *Sched) waitTask(t *task) bool {
 					return true
 				default:
 				}
-				return false
+				// The task may be waiting for goroutines the library
+				// started itself (WaitGroup.Wait, a reply channel): those
+				// are runnable and get the P during the next Gosched.  A
+				// task that waits for a lock held by a PARKED task stays
+				// where it is however often the others run.
+				if strikes++; strikes >= 4 {
+					return false
+				}
+			} else {
+				strikes = 0
 			}
 		}
 	case *PipeGate:
